@@ -32,8 +32,11 @@ Record txn := mkTxn { t_hash : Z; t_ins : list Z; t_outs : list txout; t_sigs : 
                       t_type : Z;
                       t_len_ok : bool;     (* header length field = serialized size *)
                       t_inner_ok : bool;   (* inner hash field = computed inner hash *)
-                      t_ids0 : list Z }.   (* output ids with the null source hash:
+                      t_ids0 : list Z;     (* output ids with the null source hash:
                                               CreateUnspents(head, txn) when head is the genesis block *)
+                      t_size : Z;          (* encoded size in bytes *)
+                      t_hkey : Z }.        (* first 8 bytes of the hash, big endian: the order of
+                                              bytes.Compare on hashes (arbitrating sort) *)
 Record header := mkHeader { h_version : Z; h_time : Z; h_seq : Z; h_fee : Z;
                             h_prev : Z; h_body : Z; h_uxhash : Z }.
 Record block := mkBlock { b_head : header;
